@@ -38,6 +38,7 @@ def cases(tier, seed):
         for lay in ('given', 'small_first', 'small_last', 'renamed', 'singleton'):
             out.append(('LFDA/%s/%s' % (dsn, lay), ('lfda', dsn, lay, seed)))
     out.append(('Covariance/singular', ('cov_singular', seed)))
+    out.append(('Covariance/ill_conditioned', ('cov_illcond', seed)))
     return out
 
 
@@ -102,6 +103,30 @@ def run_case(spec):
     evals = 0
     head = {'residual': 0.0}
     TOL = 1e-8
+    if kind == 'cov_illcond':
+        # full rank but ill conditioned (features in very different units, exact power-of-two factors): M must still be the
+        # INVERSE - compared with an exact rational inverse of the exact covariance
+        from mc import exact
+        from checks.c20_psd_init import finv
+        ds = data.dataset('S3u')
+        for ratio in (2.0 ** 10, 2.0 ** 14, 2.0 ** 18):
+            X = ds.X * np.array([1.0, ratio, 1.0 / ratio])
+            Xf = [exact.fvec(r) for r in X]
+            n, d = X.shape
+            mean = [sum(r[j] for r in Xf) / n for j in range(d)]
+            C = [[sum((r[i] - mean[i]) * (r[j] - mean[j]) for r in Xf) / (n - 1) for j in range(d)] for i in range(d)]
+            Ci = np.array([[float(x) for x in row] for row in finv(C)])
+            cond = np.linalg.cond(np.array([[float(x) for x in row] for row in C]))
+            M = ml.Covariance().fit(X.copy()).get_mahalanobis_matrix()
+            evals += 1
+            rel = (np.abs(M - Ci) / np.sqrt(np.outer(np.abs(np.diag(Ci)), np.abs(np.diag(Ci))))).max()
+            head['residual'] = max(head['residual'], rel / (1e3 * cond * 2.2e-16))
+            if rel > 1e3 * cond * 2.2e-16:
+                viol.append(V('Covariance.fit', 'not_inverse', 'covariance with condition number %.3g: M differs from the exact inverse by %.3g '
+                              '(scaled entrywise)' % (cond, rel), ['ill_conditioned']))
+            sigs.add(('Covariance', 'illcond', ratio))
+        return dict(evals=evals, sigs=sigs, viol=viol, headroom=head,
+                    sample={'learner': 'Covariance', 'data': 'S3u with feature scales 1, r, 1/r for r in 2^10, 2^14, 2^18'})
     if kind in ('cov', 'cov_singular'):
         if kind == 'cov':
             ds = get_ds(spec[1], spec[2])
